@@ -5,7 +5,7 @@
    MiniPy.Lemmas.for_loop. *)
 From Coq Require Import ZArith QArith List String Bool Arith Lia ZifyBool ZifyNat.
 From PV Require Import C14.Model MiniPy.Syntax MiniPy.Interp MiniPy.Lemmas Gen.C14Src C14.SrcRun.
-From PV Require C14.Proofs.
+From PV Require C14.Proofs C14.ProofsSampler.
 Import ListNotations.
 Local Open Scope string_scope.
 
@@ -266,24 +266,36 @@ Proof.
     + intros y Hy. rewrite (Hl y Hy). unfold set_var. cbn [vars]. apply lookup_update_neq. exact Hy.
 Qed.
 
-Lemma insert_tie e (l : dict) :
+(* MiniPy's sorted is stable (Interp.insert_keyed puts an item in front of the first one whose key is not smaller);
+   Model.insert_item puts it in front of the first one whose key is greater.  The two agree when the key is new -
+   the keys of a dict are distinct. *)
+Lemma insert_tie e (l : dict) : ~ List.In (fst e) (map fst l) ->
   insert_keyed (zn (fst e), item_of e) (map (fun kv => (zn (fst kv), item_of kv)) l)
   = Some (map (fun kv => (zn (fst kv), item_of kv)) (insert_item e l)).
 Proof.
-  induction l as [|y t IH]; [reflexivity|].
+  induction l as [|y t IH]; intros Hn; [reflexivity|].
   cbn [map insert_keyed insert_item fst]. rewrite cmp_lt_zn.
-  destruct (Nat.ltb (fst e) (fst y)); [reflexivity|].
-  rewrite IH. reflexivity.
+  assert (Hne : fst e <> fst y) by (intros E; apply Hn; left; symmetry; exact E).
+  destruct (Nat.ltb (fst y) (fst e)) eqn:E1; destruct (Nat.ltb (fst e) (fst y)) eqn:E2.
+  - apply Nat.ltb_lt in E1. apply Nat.ltb_lt in E2. lia.
+  - rewrite IH by (intros H; apply Hn; right; exact H). reflexivity.
+  - reflexivity.
+  - apply Nat.ltb_ge in E1. apply Nat.ltb_ge in E2. lia.
 Qed.
 
-Lemma sort_tie (d : dict) :
+Lemma sort_tie (d : dict) : NoDup (map fst d) ->
   sort_keyed (map (fun kv => (zn (fst kv), item_of kv)) d) = Some (map item_of (sort_items d)).
 Proof.
-  unfold sort_keyed.
+  intros Hnd. unfold sort_keyed.
   assert (H : sort_keyed_aux (map (fun kv => (zn (fst kv), item_of kv)) d)
               = Some (map (fun kv => (zn (fst kv), item_of kv)) (sort_items d))).
   { induction d as [|e d IH]; [reflexivity|].
-    cbn [map sort_keyed_aux]. rewrite IH. unfold sort_items. cbn [fold_right]. apply insert_tie. }
+    cbn [map] in Hnd. inversion Hnd as [|? ? Hnot Hnd']; subst.
+    cbn [map sort_keyed_aux]. rewrite (IH Hnd'). unfold sort_items. cbn [fold_right]. apply insert_tie.
+    fold (sort_items d). intros Hin. apply Hnot.
+    apply in_map_iff in Hin. destruct Hin as [x [Hx Hin]].
+    apply (proj1 (C14.ProofsSampler.in_sort_items (fun n => n) (fun n => n) d x)) in Hin.
+    apply in_map_iff. exists x. split; [exact Hx|exact Hin]. }
   rewrite H. cbn [option_map]. rewrite map_map. reflexivity.
 Qed.
 
@@ -359,8 +371,10 @@ Proof.
   change (VDict []) with (enc_open []).
   change (mkState [("self", self_of s (VDict d1) (VDict d2) drop); ("batches", enc_open [])] [])
     with (mkState (mk_vars (self_of s (VDict d1) (VDict d2) drop) [] []) []).
-  destruct (iter_loop bk sz [] s) as [[ys open']|].
-  - destruct Hl as [rest' [Hr Hf]]. rewrite Hf. cbn [bind app].
+  destruct (iter_loop bk sz [] s) as [[ys open']|] eqn:Eit.
+  - assert (Hnd : NoDup (map fst open'))
+      by exact (proj1 (proj1 (C14.ProofsSampler.iter_loop_spec bk sz s [] ys open' Eit (C14.ProofsSampler.good_nil bk sz)))).
+    destruct Hl as [rest' [Hr Hf]]. rewrite Hf. cbn [bind app].
     unfold tail_stmt, bbs_iter. rewrite exec_if.
     cbn -[exec for_loop]. 
     destruct drop; cbn -[exec for_loop].
@@ -369,7 +383,7 @@ Proof.
       rewrite items_enc.
       destruct (keys_tie open' (mkState (mk_vars (self_of s (VDict d1) (VDict d2) false) open' rest') (map yield_ev ys)))
         as [stk [Hk [Hek _]]].
-      rewrite Hk. cbn [bind]. rewrite sort_tie. cbn [bind iter_items container_items].
+      rewrite Hk. cbn [bind]. rewrite (sort_tie open' Hnd). cbn [bind iter_items container_items].
       destruct (flush_loop_tie (sort_items open') stk) as [stf [Hfl Hef]].
       change (SSeq (SAssign [TName "_"] (ESub (EName "$t1") (EConst (VInt 0))))
                 (SSeq (SAssign [TName "batch"] (ESub (EName "$t1") (EConst (VInt 1)))) (SYield (EName "batch"))))
